@@ -55,7 +55,7 @@ PROPS = {
                 quick=['std-lax', 'std-strict'], thorough=list(CONFIGS)),
     'C18': dict(custom='c18_check'),
     'C07': dict(workload='C07', oracle=['C07'], project=proj_accept,
-                quick=['std-lax', 'std-strict'], thorough=list(CONFIGS)),
+                quick=['std-lax', 'std-strict', 'nostd-lax'], thorough=list(CONFIGS)),
     'C08': dict(workload='C08', oracle=['C08'], project=proj_identity,
                 quick=['std-lax'], thorough=['std-lax', 'nostd-lax']),
     'C09': dict(workload='C09', oracle=['C09'], project=proj_identity, spec_ops=('contchk',),
